@@ -186,3 +186,45 @@ func VerifC01_AllTags(cs int) {
 	}
 	vRoundtrip(doc, "alltags")
 }
+
+// VerifC01_FamilyRoles: husband / wife / child nodes inside families and inside records that come
+// after a family (the nodes are taken from a family and added elsewhere through AddNode, which the
+// public API allows). cs%4: 0 roles only in the family, 1 role nodes in a later record, 2 nested one
+// level deeper in a later record, 3 two families with a record carrying role nodes between them.
+// cs/4%4: tag of the later record (NOTE, _GRP, INDI, SOUR).
+func VerifC01_FamilyRoles(cs int) {
+	doc := NewDocument()
+	doc.HasBOM = VsBool("bom")
+	doc.AddIndividual("I1")
+	fam := doc.AddFamily("F" + vLegalPointer("fp", []int{1}))
+	fam.SetHusbandPointer("I" + vLegalPointer("hp", []int{1}))
+	fam.SetWifePointer("I2")
+	fam.AddNode(NewNode(TagNote, vLegalValue("fv", []int{2}), ""))
+	donor := doc.AddFamily("F9")
+	donor.SetHusbandPointer("I7")
+	donor.SetWifePointer("I8")
+	recTag := []string{"NOTE", "_GRP", "INDI", "SOUR"}[cs/4%4]
+	var rec Node
+	if recTag == "INDI" {
+		rec = doc.AddIndividual("R1")
+	} else {
+		rec = NewNode(TagFromString(recTag), vLegalValue("rv", []int{0, 2}), "R1")
+		doc.AddNode(rec)
+	}
+	switch cs % 4 {
+	case 1:
+		rec.AddNode(donor.Husband())
+		rec.AddNode(NewNode(TagNote, "between", ""))
+		rec.AddNode(donor.Wife())
+	case 2:
+		inner := NewNode(TagFromString("_IN"), "x", "")
+		rec.AddNode(inner)
+		inner.AddNode(donor.Husband())
+	case 3:
+		rec.AddNode(donor.Wife())
+		last := doc.AddFamily("F3")
+		last.SetHusbandPointer("I1")
+		doc.AddNode(NewNode(TagFromString("_END"), "", ""))
+	}
+	vRoundtrip(doc, "family-roles")
+}
